@@ -94,6 +94,8 @@ class KInterp:
         self.res_writes = []     # stores into result tables
         self.pit_fullinit = {}   # pit name -> template text, once `pit[:, :] = ...` was executed
         self.user_data_writes = []   # in-place stores into arrays that alias a user table column
+        self.internal_lookup_reads = []
+        self.skipped = []
 
     # ------------------------------------------------------------------ entry
     def run(self, fi, args=None, param_syms=None):
@@ -137,7 +139,18 @@ class KInterp:
         for i, s in enumerate(stmts):
             if st["returned"]:
                 return
-            self.stmt(s, st)
+            if getattr(self, "resilient", False):
+                try:
+                    self.stmt(s, st)
+                except Unsupported as ex:
+                    self.notes.append("skipped `%s`: %s" % (U(s).split("\n")[0][:50], str(ex)[:60]))
+                    self.skipped.append((s, str(ex)))
+                    for t_ in (s.targets if isinstance(s, ast.Assign) else ([s.target] if isinstance(s, ast.AugAssign) else [])):
+                        for nm in ([t_] if isinstance(t_, ast.Name) else (t_.elts if isinstance(t_, (ast.Tuple, ast.List)) else [])):
+                            if isinstance(nm, ast.Name):
+                                st["env"][nm.id] = GExpr.of(Poly.sym("opaque", nm.id))
+            else:
+                self.stmt(s, st)
 
     def stmt(self, s, st):
         env = st["env"]
@@ -166,6 +179,8 @@ class KInterp:
             t = s.targets[0]
             if isinstance(t, (ast.Tuple, ast.List)):
                 v = self.eval(s.value, st)
+                if isinstance(v, AnyTuple):
+                    v = [GExpr.of(Poly.sym("opaque", v.what, i_)) for i_ in range(len(t.elts))]
                 vals = v if isinstance(v, (list, tuple)) else None
                 if vals is None or len(vals) != len(t.elts):
                     raise Unsupported("tuple assignment arity at %s" % U(s)[:80])
@@ -437,6 +452,14 @@ class KInterp:
             self.res_writes.append({"table": tbl, "column": colname, "selector": sel, "value": v, "guard": G,
                                     "node": t, "fi": st["fi"]})
             return
+        if getattr(self, "soft_calls", False):
+            if v is None and value_expr is not None:
+                try:
+                    self.eval(value_expr, st)
+                except Unsupported:
+                    pass
+            self.notes.append("store into %s not modelled" % U(t)[:60])
+            return
         raise Unsupported("store target %s" % U(t))
 
     def _res_target(self, t, st):
@@ -499,6 +522,8 @@ class KInterp:
     def _as_num(self, v):
         if isinstance(v, GExpr):
             return v
+        if isinstance(v, AnyTuple):
+            return GExpr.of(Poly.sym("opaque", v.what))
         if isinstance(v, MaskedView):
             return self._as_num(v.base)
         if isinstance(v, NodeRange):
@@ -745,6 +770,13 @@ class KInterp:
             if isinstance(items, (list, tuple, set)):
                 r = a.v in items
                 return PyVal(r if isinstance(op, ast.In) else not r)
+        if isinstance(op, (ast.Eq, ast.NotEq)) and ((isinstance(a, GExpr) and isinstance(b, PyVal) and isinstance(b.v, str))
+                                                    or (isinstance(b, GExpr) and isinstance(a, PyVal) and isinstance(a.v, str))):
+            from .algebra import fmt_poly
+            gx, sv = (a, b.v) if isinstance(a, GExpr) else (b, a.v)
+            if gx.plain() is not None:
+                lit = BExpr.lit(("flag", "%s==%r" % (fmt_poly(gx.plain()), sv)))
+                return lit if isinstance(op, ast.Eq) else ~lit
         if isinstance(a, PyVal) or isinstance(b, PyVal):
             av = a.v if isinstance(a, PyVal) else None
             bv = b.v if isinstance(b, PyVal) else None
@@ -862,6 +894,17 @@ class KInterp:
                     return PitView(self._pitname(base, base_node))
                 # pit[rows, :] -> a row view
                 return PitRow(self._pitname(base, base_node), self._rowkey(sl.elts[0], st))
+            try:
+                b0 = self.eval(base_node, st)
+            except Unsupported:
+                b0 = None
+            if isinstance(b0, Lookup) and b0.table is not None and b0.kind.startswith("internal_"):
+                rows = self.eval(sl.elts[0], st)
+                if isinstance(rows, MaskedView):
+                    rows = rows.base
+                self.internal_lookup_reads.append({"kind": b0.kind, "table": b0.table, "rows": rows, "node": e, "fi": st["fi"]})
+                rp = self._as_num(rows).plain()
+                return GExpr.of(Poly.sym("internal", b0.kind, b0.table, rp.key() if rp is not None else "?", U(sl.elts[1])))
             raise Unsupported("2-d subscript %s" % U(e))
         base = self.eval(base_node, st)
         if isinstance(base, TableRef):
@@ -892,11 +935,18 @@ class KInterp:
                 if "from_to" in base.kind:
                     nm = base.kind + "[" + k.v + "]"
                     return [GExpr.of(Poly.sym("lookup", nm, "f")), GExpr.of(Poly.sym("lookup", nm, "t"))]
-                if "index" in base.kind:
+                if "index" in base.kind or base.kind.startswith("internal_"):
                     return Lookup(base.kind, k.v)
                 return GExpr.of(Poly.sym("lookup", base.kind, k.v))
             if isinstance(sl, ast.Slice) and "active" in base.kind:
                 return BExpr.lit(("flag", "lookup:" + base.kind))
+            if base.table is not None and base.kind.startswith("internal_"):
+                rows = k[0] if isinstance(k, list) else k
+                if isinstance(rows, MaskedView):
+                    rows = rows.base
+                self.internal_lookup_reads.append({"kind": base.kind, "table": base.table, "rows": rows, "node": e, "fi": st["fi"]})
+                rp = self._as_num(rows).plain() if not isinstance(rows, (list, tuple)) else None
+                return GExpr.of(Poly.sym("internal", base.kind, base.table, rp.key() if rp is not None else "?"))
             if base.table is not None and isinstance(k, GExpr):
                 # index lookup: labels of table -> pit positions
                 out = []
@@ -922,6 +972,10 @@ class KInterp:
                 return GExpr.of(Poly.sym(k.v + "_pit"))
             if isinstance(k, PyVal) and k.v == "components":
                 return GExpr.of(Poly.sym("component_pits"))
+        if isinstance(base, GExpr) and base.plain() is not None and base.plain() == Poly.sym("net", "_lookups"):
+            k = self.eval(sl, st)
+            if isinstance(k, PyVal) and isinstance(k.v, str):
+                return Lookup(k.v)
         if isinstance(base, GExpr) and self._is_param_sym(base) and U(base_node) == "branch_results":
             k = self.eval(sl, st)
             if isinstance(k, PyVal) and isinstance(k.v, str):
@@ -1307,6 +1361,15 @@ class KInterp:
         return self._lift_const(v)
 
     def _inline(self, g, args, kw, st):
+        if getattr(self, "soft_calls", False):
+            try:
+                return self._inline_hard(g, args, kw, st)
+            except Unsupported as ex:
+                self.notes.append("call of %s kept opaque: %s" % (g.name, str(ex)[:80]))
+                return AnyTuple(g.name)
+        return self._inline_hard(g, args, kw, st)
+
+    def _inline_hard(self, g, args, kw, st):
         ps = g.params()
         if ps and ps[0] in ("cls", "self") and g.cls is not None:
             ps = ps[1:]
@@ -1326,6 +1389,9 @@ class KInterp:
         sub.pit, sub.pit_order, sub.res_writes = self.pit, self.pit_order, self.res_writes
         sub.pit_fullinit = self.pit_fullinit
         sub.user_data_writes = self.user_data_writes
+        sub.soft_calls = getattr(self, "soft_calls", False)
+        sub.internal_lookup_reads = self.internal_lookup_reads
+        sub.resilient = False
         sub.partial = False
         k = sub.run(g, a2)
         self.notes.extend(sub.notes)
@@ -1368,6 +1434,13 @@ class TableRef:
 
     def filtered(self, b):
         return TableRef(self.name, b if self.flt is None else (self.flt & b))
+
+
+class AnyTuple:
+    """result of a call that could not be modelled (soft_calls mode): unpacks into fresh symbols"""
+
+    def __init__(self, what):
+        self.what = what
 
 
 class Lookup:
